@@ -561,6 +561,40 @@ def run(chk):
         progs.append((c15_gen.render_cond(items), {}, ["if-arms"], reqs, "if_symbols"))
         progs.append((c15_gen.render([n for n, _ in world]), {}, ["if-arms"], reqs, "if_symbols"))
         ifprogs[ci_] = (ci_ + 1, world, c15_gen.f55_exact(world))
+    # ---- pre-pass without any format request: "every row is ONE emitted item" read on the recorded spans themselves --
+    # the positioned, non-empty spans of an assembled program are pairwise disjoint and lie inside the output (in the
+    # model: C12_pipeline_one_item; the overlap checker rejects everything else).  A program that breaks this is
+    # reported here and NOT handed to the formatters (rows spanning the rest of the output made them run for minutes).
+    pre = vlib.run_lines([bins["debug"] + "/listing"], [impl_line(t, e, []) for (t, e, _, _, _) in progs], timeout=300)
+    nbad = 0
+    for pi, a in enumerate(pre):
+        if a.split("\t", 1)[0] in ("PANIC", "INCONSISTENT", "CRASH", "?"):
+            # (reported by the main loop below; its listings are not requested: in a release build the same input may
+            # not panic but wrap around, and the formatters then work on nonsense for minutes)
+            t, e, tags, reqs, stream = progs[pi]
+            progs[pi] = (t, e, tags, [], stream)
+            continue
+        if not a.startswith("OK\t"):
+            continue
+        info0 = parse_answer(a)
+        nbits = len(info0["bits"])
+        pos = sorted((s_["off"], s_["size"]) for s_ in info0["spans"] if s_["off"] is not None and s_["size"] > 0)
+        why = None
+        for (o1, z1), (o2, z2) in zip(pos, pos[1:]):
+            if o1 + z1 > o2:
+                why = "the span at bit %d (%d bits) runs into the span at bit %d" % (o1, z1, o2)
+                break
+        if why is None and pos and pos[-1][0] + pos[-1][1] > nbits:
+            why = "the span at bit %d (%d bits) ends after the output (%d bits)" % (pos[-1][0], pos[-1][1], nbits)
+        if why:
+            nbad += 1
+            t, e, tags, reqs, stream = progs[pi]
+            if nbad <= 5:
+                chk.violation("recorded spans do not describe one emitted item each: " + why,
+                              {"kind": "program", "main": t, "files": e, "requests": [], "impl_line": impl_line(t, e, []),
+                               "spans": info0["spans_wire"][:3000]})
+            progs[pi] = (t, e, tags, [], stream)
+    chk.count("span_prepass", len(pre), spans_not_one_item=nbad)
     lines = [impl_line(t, e, r) for (t, e, _, r, _) in progs]
     res = {p: vlib.run_lines([bins[p] + "/listing"], lines) for p in ("debug", "release")}
     vlib.extraction("ExResolver2")
